@@ -256,6 +256,26 @@ def run(fx, tier):
     # 2^31 publishes initiated during one outstanding exchange is treated as out of reach.
     v.check(W >= 32, 'R-ARITH', 'serial number width', 'serial numbers are %d bits wide: the ordering window is 2^%d publishes (at least 2^31 required)' % (W, W - 1),
             key='C06:R-ARITH:serial-width')
+    # ... and nothing on the way from the counter to the write queue narrows it (a pass-through wrapper taking uint16_t would:
+    # the compare stays 32-bit, the values it compares no longer are)
+    n_carry = 0
+    for f in fx.fns:
+        if not f.path_file().startswith('boost/mqtt5/'):
+            continue
+        for b_, i_, l_, x_ in f.elements():
+            for m_ in Expr.walk(x_):
+                if m_.get('k') != 'icast' or not isinstance(m_.get('e'), dict):
+                    continue
+                inner = f.resolve(m_['e'])
+                carries = contains(inner, lambda q_: q_.get('k') in ('ref', 'mem') and 'serial' in (q_.get('n') or ''))
+                if not carries:
+                    continue
+                n_carry += 1
+                if (m_.get('tw') or 64) < W and (m_.get('fw') or 0) >= W:
+                    v.fail('R-ARITH', '%s::%s:serial-narrowed@%d [%s]' % (f.cls, f.n, l_, f.tu),
+                           'a serial number (%d bits) is converted to %s (%d bits) on its way to the write queue' % (W, m_.get('to'), m_.get('tw')),
+                           key='C06:R-ARITH:serial-narrowed', where='%s:%d' % (f.path_file(), l_))
+    v.ok('R-ARITH', 'serial numbers are carried at full width', '%d integral conversions of serial-number expressions inspected' % n_carry)
     seen_tu = set()
     for f in ops:
         if f.tu in seen_tu:
